@@ -33,13 +33,14 @@ class Channel {
     Channel (Scheduler &sch) : sch_(sch) { }
 
     bool operator >> (T &out) {
-        if (queue_.empty()) {   //! 如果队列里没有，则等待
+        //! 如果队列里没有，则等待
+        //! 注意：被唤醒后数据可能已被别的协程取走，这时要重新排队再等。
+        //! 因为 operator << 唤醒时已将本协程的 token 从 token_ 中取出了
+        while (queue_.empty()) {
             token_.push(sch_.getToken());
-            do {
-                sch_.wait();
-                if (sch_.isCanceled())
-                    return false;
-            } while (queue_.empty());
+            sch_.wait();
+            if (sch_.isCanceled())
+                return false;
         }
 
         out = queue_.front();
